@@ -104,8 +104,8 @@ def _body_wo_doc(fn) -> list[ast.stmt]:
 def _is_candidate(qn: str, fn, cls: str | None, outer, module: str, known: set) -> bool:
     if (module, qn) in known:
         return False
-    if outer is None and not fn.name.startswith('_'):
-        return False
+    if outer is None and not fn.name.startswith('_') and cls is None:
+        return False  # a new public module-level function: part of the API, analysed as a unit of its own
     if fn.name.startswith('__') and fn.name.endswith('__'):
         return False
     decos = [ast.unparse(d) for d in fn.decorator_list]
@@ -267,7 +267,7 @@ def _enclosing_def(node: ast.AST, parents: dict[int, ast.AST]):
 
 
 # ------------------------------------------------------------------------------------------------ driver
-def fold_new_helpers(tree: ast.Module, module: str, known: set[tuple[str, str]] | None = None, max_rounds: int = 4) -> list[str]:
+def fold_new_helpers(tree: ast.Module, module: str, known: set[tuple[str, str]] | None = None, max_rounds: int = 60) -> list[str]:
     known = known if known is not None else load_known()
     log: list[str] = []
     for _ in range(max_rounds):
@@ -310,8 +310,10 @@ def fold_new_helpers(tree: ast.Module, module: str, known: set[tuple[str, str]] 
                 log.append(f'{module}:{qn} left alone ({e})')
                 known = set(known) | {(module, qn)}
                 continue
-            container[:] = [x for x in container if x is not fn] or [ast.copy_location(ast.Pass(), fn)]
-            log.append(f'{module}:{qn} folded into its {len(refs)} use(s) ({how} form)')
+            public = outer is None and not fn.name.startswith('_')
+            if not public:
+                container[:] = [x for x in container if x is not fn] or [ast.copy_location(ast.Pass(), fn)]
+            log.append(f'{module}:{qn} folded into its {len(refs)} use(s) ({how} form)' + (' — kept as a unit: a new public method can also be called from outside' if public else ''))
             changed = True
             break  # tree changed: recompute parents / defs
         if not changed:
@@ -611,6 +613,33 @@ def _hoist_test_calls(fn, refs: list[ast.AST], parents) -> bool:
                 holder.test.operand = ref  # type: ignore[union-attr]
             i = next(k for k, x in enumerate(blk) if x is holder)
             blk.insert(i, asg)
+            changed = True
+            continue
+        # `while A and [not] [await] helper(args) and B:`  ->  `while True:` + `if not (A): break` + `__r = [await] helper(args)` + `if not __r: break` + `if not (B): break` + body
+        whl = holder
+        conj_of = None
+        if isinstance(whl, ast.BoolOp) and isinstance(whl.op, ast.And) and any(v is node or v is up for v in whl.values):
+            conj_of = whl
+            whl = parents.get(id(whl))
+        if isinstance(whl, ast.While) and not whl.orelse and (whl.test is node or whl.test is up or whl.test is conj_of):
+            conjuncts = conj_of.values if conj_of is not None else [whl.test]
+            _COUNTER[0] += 1
+            name = f'__inl_ret_{_COUNTER[0]}'
+            pre: list[ast.stmt] = []
+
+            def brk(test: ast.expr) -> ast.stmt:
+                return ast.copy_location(ast.If(test=ast.UnaryOp(op=ast.Not(), operand=test), body=[ast.Break()], orelse=[]), whl)
+
+            for v in conjuncts:
+                if v is node or v is up:
+                    pre.append(ast.copy_location(ast.Assign(targets=[ast.Name(id=name, ctx=ast.Store())], value=node), whl))
+                    ref = ast.copy_location(ast.Name(id=name, ctx=ast.Load()), node)
+                    pre.append(brk(ast.UnaryOp(op=ast.Not(), operand=ref)) if (v is up and v is not node and isinstance(v, ast.UnaryOp)) else brk(ref))
+                else:
+                    pre.append(brk(v))
+            whl.test = ast.copy_location(ast.Constant(value=True), whl.test)
+            whl.body = pre + list(whl.body)
+            ast.fix_missing_locations(whl)
             changed = True
     return changed
 
